@@ -157,9 +157,14 @@ def pageSuppliedIllegal (kw : PageField → Option Raw) (f : PageField) : Bool :
   | some x => !pageLegal f x
   | none => false
 
+/-- "a non-positive … col_width": the table width the page ends up with — the supplied `col_width`, or the page
+width minus the side allowance (2.25 in portrait, 2.5 in landscape) when none is given — must be positive -/
+def pageColWidthIllegal (kw : PageField → Option Raw) : Bool := !decide (0 < resolvedColWidth kw)
+
 def specPage (kw : PageField → Option Raw) : Verdict :=
   if !(pageFields.all (pageSuppliedInDomain kw)) then .free
   else if pageFields.any (pageSuppliedIllegal kw) then .reject
+  else if pageColWidthIllegal kw then .reject
   else .accept
 
 /-! ## RTFFigure -/
@@ -208,7 +213,12 @@ def sectionLegal (cols : List String) (b : BodySpec) : Bool :=
   let present := fun (o : Option (List String)) => match o with
     | some names => names.all (fun n => cols.contains n)
     | none => true
-  present b.groupBy && present b.pageBy && present b.sublineBy
+  -- "grouping columns missing from the data": a group_by column must also still be a column of the displayed
+  -- table, i.e. not one that subline_by, or page_by shown as spanning rows, takes out of it
+  let spanning := !(b.newPage && b.pagebyColumn)
+  let gone := fun (c : String) =>
+    (b.sublineBy.getD []).contains c || (spanning && (b.pageBy.getD []).contains c)
+  present b.groupBy && present b.pageBy && present b.sublineBy && !(b.groupBy.getD []).any gone
 
 def sectionsLegal (secs : List (List String)) (bs : List BodySpec) : Bool :=
   (secs.zip bs).all (fun p => sectionLegal p.1 p.2)
